@@ -46,6 +46,7 @@ type atomizer struct {
 	pv          *prov
 	fn          *ssa.Function
 	helperDepth int
+	normEmpty   bool // render every spelling of an emptiness test as one atom
 }
 
 func (a *atomizer) o(v ssa.Value) string {
@@ -55,6 +56,12 @@ func (a *atomizer) o(v ssa.Value) string {
 // atom renders a branch condition as (canonical string, positive) – the returned bool tells whether
 // the string describes the condition itself (true) or its negation (false).
 func (a *atomizer) atom(cond ssa.Value) (string, bool) {
+	// tests for emptiness in any spelling (len(x) == 0, len(x) > 0, x != "", …) are one atom
+	if _, isCall := cond.(*ssa.Call); !isCall && a.normEmpty {
+		if x, empty, ok := emptyTestOf(cond, true); ok {
+			return "empty(" + a.o(x) + ")", empty
+		}
+	}
 	switch x := cond.(type) {
 	case *ssa.BinOp:
 		lhs, rhs := x.X, x.Y
@@ -204,6 +211,14 @@ func (a *atomizer) pathsDNF(from, to *ssa.BasicBlock, limit int) ([][]literal, b
 			}
 			if k, isK := cond.(*ssa.Const); isK && k.Value != nil && k.Value.Kind() == constant.Bool {
 				if constBool(k) {
+					walk(b, b.Succs[0], acc, seen)
+				} else {
+					walk(b, b.Succs[1], acc, seen)
+				}
+				return
+			}
+			if v, taut := lenTautology(cond); taut && a.normEmpty {
+				if v {
 					walk(b, b.Succs[0], acc, seen)
 				} else {
 					walk(b, b.Succs[1], acc, seen)
